@@ -10,7 +10,7 @@ import XpmVerif.Model.Runner
 open Lean XpmVerif XpmVerif.J XpmVerif.Runner
 
 def csName : CS → String | .test => "test" | .rmPid => "rmPid" | .relLock => "relLock"
-def hsName : HS → String | .write => "write" | .clean c => csName c | .exit => "exit"
+def hsName : HS → String | .write => "write" | .test => "test" | .rmPid => "rmPid" | .relLock => "relLock" | .exit => "exit"
 def locName : Loc → String
   | .init => "init" | .reg => "reg" | .term => "term" | .pre => "pre" | .tryLock => "tryLock"
   | .locked => "locked" | .rmFailed => "rmFailed" | .setStarted => "setStarted" | .body k => s!"body:{k}"
